@@ -43,6 +43,7 @@ def run(rep, prog, tier):
     ecdh(rep, prog)
     compression(rep, prog)
     families.check_operation_wiring(rep, prog, 'C03.7')
+    families.check_readdressing(rep, prog, 'C03.7')
     decrypt_wiring(rep, prog)
     families.check_sessionkey_consumers(rep, prog, 'C03.8')
     families.check_pkesk_selection(rep, prog, 'C03.8')
@@ -361,7 +362,10 @@ def skesk(rep, prog):
         take = sl('packet', ('', lin_add('self.header.length', 'len(self.s2k)', -1)))
         ct = [i for i, e in enumerate(ev) if _store(e, 'self.ct') and e[2] == take]
         dl = [i for i, e in enumerate(ev) if (e[0] == 'del' and e[1] == take) or (_store(e, take) and e[2] in ('C()', "''", ''))]   # del b[:n] / b[:n] = b''
-        ok = len(ins) == 1 and len(s2k) == 1 and len(ct) == 1 and len(dl) == 1 and ins[0] < s2k[0] < ct[0] <= dl[0] + 1
+        lens = [i for i, e in enumerate(ev) if _call(e, 'len') and e[2] == ['self.s2k']] + \
+            [i for i, e in enumerate(ev) if _call(e, 'self.s2k.__len__')]
+        ok = len(ins) == 1 and len(s2k) == 1 and len(ct) == 1 and len(dl) == 1 and ins[0] < s2k[0] < ct[0] <= dl[0] + 1 and \
+            bool(lens) and all(i > s2k[0] for i in lens)      # the specifier's length is only known once it has been parsed
         rep.check(ok, 'C03.3', 'SKESessionKeyV4.parse', 'usage octet re-inserted, no IV, remainder = header.length - len(s2k)',
                   'the reader must mirror the writer: one synthetic usage octet stands in for the version octet', where=cp.where,
                   expected='packet.insert(0, 255); s2k.parse(packet, iv=False); ct = packet[:header.length - len(s2k)] (consumed)',
@@ -472,15 +476,43 @@ def ecdh(rep, prog):
                           scenario=scen, found=w[0][1][1] if w else None)
                 pst = [split_args(taint.expand_objs(s, v)) for p, v, l, _ in s.stores if p.endswith('.p')]
                 x25519 = any(c[0].endswith('X25519PrivateKey.generate') for c in s.calls)
+                exch = [c for c in s.calls if c[0].endswith('.exchange')]
+                EPH = exch[0][0][:-len('.exchange')] if len(exch) == 1 else '?'
+                if x25519:
+                    coords = ['%s.public_key().public_bytes(encoding=serialization.Encoding.Raw, format=serialization.PublicFormat.Raw)' % EPH]
+                    alt = ['%s.public_key().public_bytes(serialization.Encoding.Raw, serialization.PublicFormat.Raw)' % EPH]
+                else:
+                    coords = ['MPI(%s.public_key().public_numbers().%s)' % (EPH, a) for a in 'xy']
+                    alt = coords
                 ok = len(pst) == 1 and pst[0] is not None and pst[0][0] == 'ECPoint.from_values' and len(pst[0][1]) == (3 if x25519 else 4) and \
-                    pst[0][1][0] == 'pk.keymaterial.oid.key_size' and pst[0][1][1] == ('ECPointFormat.Native' if x25519 else 'ECPointFormat.Standard')
+                    pst[0][1][0] == 'pk.keymaterial.oid.key_size' and pst[0][1][1] == ('ECPointFormat.Native' if x25519 else 'ECPointFormat.Standard') and \
+                    pst[0][1][2:] in (coords, alt)
+                ret = render(s.ret) if s.ret is not None else None
+                onret = sorted(p for p, v, l, _ in s.stores if p.endswith('.p') or p.endswith('.c')) == sorted(['%s.c' % ret, '%s.p' % ret])
+                rep.check(onret, 'C03.5', 'ECDHCipherText.encrypt', 'C and the point are set on the object returned (%s)' % ret,
+                          'the ciphertext object handed back must be the one that carries the ephemeral point and C', where=f.where, scenario=scen,
+                          found=[p for p, v, l, _ in s.stores])
                 rep.check(ok, 'C03.5', 'ECDHCipherText.encrypt', 'ct.p = %s(%s)' % ((pst[0][0], ', '.join(pst[0][1][:2])) if pst and pst[0] else (None, '')),
                           'the ephemeral point is encoded for the recipient curve: its bit length, native format for Curve25519 and the '
-                          'uncompressed standard format otherwise', where=f.where, scenario=scen, found=pst[0] if pst else None)
+                          'uncompressed standard format otherwise, from the x (and y) of the ephemeral public key in that order', where=f.where,
+                          scenario=scen, found=pst[0] if pst else None)
                 cst = [v for p, v, l, _ in s.stores if p.endswith('.c')]
                 rep.check(len(w) == 1 and cst == [call_text(w[0])], 'C03.5', 'ECDHCipherText.encrypt', 'ct.c', 'the packet carries C',
                           where=f.where, scenario=scen)
             else:
+                exch = [c for c in s.calls if c[0] == 'pk.keymaterial.__privkey__().exchange']
+                peer = exch[0][1][-1] if len(exch) == 1 and exch[0][1] else ''
+                pn = taint.calls_named(s, 'EllipticCurvePublicNumbers')
+                if pn:
+                    pa = bind_call(pn[0], ['x', 'y', 'curve'])
+                    okp = len(pn) == 1 and pa == {'x': 'self.p.x', 'y': 'self.p.y', 'curve': 'pk.keymaterial.oid.curve()'} and \
+                        peer in ('%s.public_key(default_backend())' % call_text(pn[0]), '%s.public_key()' % call_text(pn[0])) and \
+                        exch[0][1][:-1] == ['ec.ECDH()']
+                else:
+                    okp = peer == 'x25519.X25519PublicKey.from_public_bytes(self.p.x)' and len(exch[0][1]) == 1
+                rep.check(okp, 'C03.5', 'ECDHCipherText.decrypt', 'peer point %s' % peer[:100],
+                          'the shared secret is computed with the ephemeral point of the packet: (x, y) on the recipient curve, or the native x for '
+                          'Curve25519, under the recipient private key', where=f.where, scenario=scen, found=exch[0][1] if exch else None)
                 w = taint.calls_named(s, 'aes_key_unwrap')
                 ok = len(w) == 1 and len(w[0][1]) >= 2 and w[0][1][1] == 'self.c' and w[0][1][0] == KEK
                 U = 'aes_key_unwrap(%s)' % ', '.join(w[0][1]) if w else ''
